@@ -101,12 +101,12 @@ Definition spec_check (forget bound : Z) (capacity : N) (log : list lentry) : bo
 From LV Require Import model.Fetcher.
 
 (* Who may be asked for what, kept WITHOUT looking at the fetcher's tables: (peer, id) enters when
-   peer announces id and id is reported interesting; every pair of id leaves when id is reported
+   peer announces id (id is in the batch) and id is reported interesting (id is in the answer); every pair of id leaves when id is reported
    received, or reported not interesting at a timer pass the loop really takes. *)
 Definition ghost := list (N * N).
 Definition ghost_step (st : state) (g : ghost) (ev : event) : ghost :=
   match ev with
-  | ENotify peer _ _ interested _ _ => map (fun id => (peer, id)) interested ++ g
+  | ENotify peer ids _ interested _ _ => map (fun id => (peer, id)) (filter (fun id => memN id ids) interested) ++ g
   | EReceived ids => filter (fun pi => negb (memN (snd pi) ids)) g
   | ETick => g
   | ETimer interested _ _ => if timer_chan st then filter (fun pi => memN (snd pi) interested) g else g
@@ -121,6 +121,12 @@ Fixpoint safe_run (c : cfg) (st : state) (g : ghost) (tr : list (Z * event)) : P
     (forall p ids id, In (p, ids) (snd (step true c st now ev)) -> In id ids -> In (p, id) g') /\
     safe_run c (fst (step true c st now ev)) g' tr'
   end.
+
+(* callback.OnlyInterested answers with ids of the batch it was asked about (the fetcher itself
+   does not check this: it stores and requests whatever the callback returns) *)
+Definition answers_sublist (tr : list (Z * event)) : Prop :=
+  forall now peer ids atime interested susp scan,
+    In (now, ENotify peer ids atime interested susp scan) tr -> forall id, In id interested -> In id ids.
 
 Definition cfg_wf (c : cfg) : Prop := (0 <= c_arrive8 c <= c_arrive c)%Z.
 
@@ -146,3 +152,28 @@ Definition owed (c : cfg) (st : state) (now : Z) (id : N) : Prop :=
     | Some (_, ft) => (c_arrive c - c_slack c < now - ft)%Z
     | None => True
     end.
+
+(* ---------- timer fairness on a trace, and "the item stays in the table until the next pass" ---------- *)
+
+(* the loop really takes a pass at this event *)
+Definition takes_pass (st : state) (ev : event) : bool :=
+  match ev with ETimer _ _ _ => timer_chan st | _ => false end.
+
+(* fairness with latency [lat], from state [st] whose last event was at [tprev]: while the timer is armed
+   no event happens later than due + lat (the runtime has delivered it by then), and once its value
+   is in the channel the very next thing the loop does is the pass, within lat *)
+Fixpoint fair_run (c : cfg) (lat : Z) (st : state) (tprev : Z) (tr : list (Z * event)) : Prop :=
+  match tr with
+  | [] => True
+  | (now, ev) :: r =>
+    (forall due, timer_due st = Some due -> (now <= due + lat)%Z) /\
+    (timer_chan st = true -> (exists i ch sc, ev = ETimer i ch sc) /\ (now <= tprev + lat)%Z) /\
+    fair_run c lat (fst (step true c st now ev)) now r
+  end.
+
+Fixpoint held_until_pass (c : cfg) (id : N) (st : state) (tr : list (Z * event)) : Prop :=
+  lru_find id (ann st) <> None /\
+  match tr with
+  | [] => True
+  | (now, ev) :: r => if takes_pass st ev then True else held_until_pass c id (fst (step true c st now ev)) r
+  end.
